@@ -381,8 +381,21 @@ def r_parser(P, R):
                     'stack of the previous formula', unit=f.unit.rel,
                     line=f.lineno)
     g = P.func('dd._parser._Translator._reset_state')
-    text = au.src(g.node).replace(' ', '')
-    if 'self._bdd=None' in text and 'self.parser.restart()' in text:
+    # the manager is dropped unconditionally (an assignment of None at the
+    # top level of the body, before any return), and the LR stacks are
+    # restarted (possibly under a test that the parser has them)
+    drops = False
+    for st in g.node.body:
+        if isinstance(st, ast.Return) or (isinstance(st, ast.If) and any(
+                isinstance(x, ast.Return) for x in ast.walk(st))):
+            break
+        if isinstance(st, ast.Assign) and isinstance(
+                st.value, ast.Constant) and st.value.value is None and \
+                any(au.chain(t) == ['self', '_bdd'] for t in st.targets):
+            drops = True
+    restarts = any(au.call_name(c) == 'restart'
+                   for c in au.calls_in(g.node))
+    if drops and restarts:
         R.holds('R-PAIR', g.qualname, 'drops the manager and restarts the '
                 'LR stacks')
     else:
